@@ -46,7 +46,9 @@ Section Step.
     - destruct H as [_ H]. eapply batch_resolve_key_wf; [exact Hwf|exact Hcp|exact H].
     - destruct H.
     - destruct H as [_ H]. eapply gc_key_wf; [exact Hwf|exact H].
-    - destruct H. - destruct H. - destruct H. - destruct H.
+    - destruct H. - destruct H. - destruct H. - destruct H. - destruct H.
+    - destruct H as [_ H]. subst x. apply wf_empty.
+    - destruct H.
   Qed.
 
   Theorem step_wf st c : wf_store W st -> cmd_in W c -> lock_req_ok st c = true -> wf_store W (fst (step st c)).
